@@ -279,6 +279,11 @@ def run_case(ctx, case, rng=None):
                   lambda: {"base": d.tolist(), "transformed": d2.tolist(),
                            "factor": factor})
 
+    # documented input shapes: observations as an [n, 1] column, lists, Series
+    import pandas as _pd
+    same("obs-as-column", decomp(crps(yin[:, None], x))[0], tolrel=1e-15)
+    same("list-and-frame-inputs", decomp(crps(_pd.Series(yin), _pd.DataFrame(x)))[0],
+         tolrel=1e-15)
     # member permutation, independently per forecast
     xp = np.array([rng.permutation(r) for r in x])
     same("member-permutation", decomp(crps(yin, xp))[0], tolrel=1e-13)
